@@ -147,6 +147,58 @@ func drivePrimFixedSweep(c *DriverCtx) error {
 
 func init() { Drivers["prim-fixed-sweep"] = drivePrimFixedSweep }
 
+// C13 on lists by COUNT: fixed-width text lists of many counts (small ones densely, then around
+// the multiples of 128 and the round decimal numbers), every cell shorter than the width, written
+// into a buffer whose spare capacity holds stale bytes, and read back.
+func drivePrimFixedCounts(c *DriverCtx) error {
+	counts := []int{}
+	for n := 0; n <= 64; n++ {
+		counts = append(counts, n)
+	}
+	for k := 1; k <= 16; k++ {
+		counts = append(counts, 128*k-1, 128*k, 128*k+1)
+	}
+	for k := 1; k <= 20; k++ {
+		counts = append(counts, 100*k)
+	}
+	counts = append(counts, 4096, 8192)
+	if c.N > 1 {
+		counts = append(counts, 3000, 4095, 4097, 5000, 8191, 8193, 10000, 16384, 32768, 65535)
+	}
+	k := 0
+	for _, w := range []int{1, 3, 8, 10, 16} {
+		for _, n := range counts {
+			if n*w > 140000 {
+				continue
+			}
+			k++
+			pad := []int{0x20, 0x30, 0x00, 0xff}[k%4]
+			left := (k/4)%2 == 1
+			el := make([]int, w-1-(k%2)*(w/3))
+			for i := range el {
+				el[i] = 0x61 + (i+k)%26
+			}
+			pw := []int{2, 4}[k%2]
+			le := (k/2)%2 == 1
+			stale := []any{map[string]any{"b": 0xEE, "n": n*w + 64}}
+			a := map[string]any{"n": w, "pad": pad, "left": left, "count": n, "elem": el, "vals": []any{}, "pw": pw, "le": le}
+			ops := []Op{{Op: "prim", B: "b", Fn: "WriteString", Args: map[string]any{"runs": stale, "s": []int{}, "pw": 4, "le": false}}, {Op: "reset", B: "b"},
+				{Op: "prim", B: "b", Fn: "WriteFixedStringListWithPadding", Args: a, Tag: "count-sweep"},
+				{Op: "prim", B: "b", Fn: "ReadFixedStringListTrimPadding", Args: a, Tag: "read-back"}}
+			if pad == 0x20 && !left {
+				ops = append(ops, Op{Op: "reset", B: "b"}, Op{Op: "prim", B: "b", Fn: "WriteFixedStringList", Args: a, Tag: "count-sweep"},
+					Op{Op: "prim", B: "b", Fn: "ReadFixedStringList", Args: a, Tag: "read-back"})
+			}
+			if err := c.Run(ops); err != nil {
+				return err
+			}
+		}
+	}
+	return nil
+}
+
+func init() { Drivers["prim-fixed-counts"] = drivePrimFixedCounts }
+
 // ---- C03 -----------------------------------------------------------------------------------
 
 var elemKinds = []struct {
@@ -337,11 +389,24 @@ func drivePrimLimits(c *DriverCtx) error {
 							ops = append(ops, Op{Op: "prim", B: b, Fn: "ReadStringList", Args: map[string]any{"pw": 2, "pw2": lm.pw, "le": le}, Tag: "read-back"})
 						}
 					}
+					if n > 0 && lm.pw == 2 {
+						// an element that does not fit its prefix AFTER 64 KiB of elements that do
+						ia3 := map[string]any{"vals": []any{make([]int, 65535), make([]int, n)}, "pw": 2, "pw2": 2, "le": le}
+						b := fmt.Sprintf("b%d", len(ops))
+						if over {
+							ia3["nopost"] = true
+						}
+						ops = append(ops, Op{Op: "prim", B: b, Fn: "WriteStringList", Args: ia3, Tag: "late-element"})
+					}
 					et := "szse.PlatformPartition"
 					if le {
 						et = "sample.SubPacket"
 					}
 					add("WriteObjectList", map[string]any{"count": n, "obj": c.G.Value(et, Canon), "objs": []any{}, "t": et}, "ReadObjectList", map[string]any{"t": et})
+					if over {
+						// too many entries, one of them nil: the count still does not fit
+						add("WriteObjectList", map[string]any{"count": n, "nilat": n / 2, "obj": c.G.Value(et, Canon), "objs": []any{}, "t": et}, "ReadObjectList", map[string]any{"t": et})
+					}
 				}
 				if err := c.Run(ops); err != nil {
 					return err
@@ -434,6 +499,20 @@ func driveMsgLimits(c *DriverCtx) error {
 				}
 			}
 		}
+		// a text-list element that does not fit, AFTER 64 KiB of elements that do
+		for _, cs := range []struct{ t, f string }{{"hw.RiskControlRequest", "ExtraInfo"}, {"sample.StringPacket", "FieldDynamicStringList"}} {
+			c.G.Small = true
+			v := c.G.Value(cs.t, Canon)
+			c.G.Small = false
+			v[cs.f] = []any{make([]int, 65535), make([]int, n)}
+			ops := []Op{{Op: "new", O: "m", V: v}, {Op: "encode", B: "b", O: "m", Tag: fmt.Sprintf("%s.%s late element of %d bytes", cs.t, cs.f, n)}}
+			if n <= 65535 {
+				ops = append(ops, Op{Op: "decode", B: "b", O: "r", T: cs.t, Fresh: true})
+			}
+			if err := c.Run(ops); err != nil {
+				return err
+			}
+		}
 		// object lists
 		sub := c.G.Value("sample.SubPacket", Canon)
 		sub["FieldI16List"] = []any{}
@@ -445,6 +524,16 @@ func driveMsgLimits(c *DriverCtx) error {
 		}
 		if err := c.Run(ops); err != nil {
 			return err
+		}
+		if n > 65535 {
+			// too many entries, one of them a nil pointer: the count does not fit either way
+			lst := rep2(n, sub)
+			lst[n/3] = map[string]any{"_t": "nil"}
+			v2 := c.G.Value("sample.NestedPacket", Canon)
+			v2["SubPacketList"] = lst
+			if err := c.Run([]Op{{Op: "new", O: "m", V: v2}, {Op: "encode", B: "b", O: "m", Tag: fmt.Sprintf("sample.NestedPacket.SubPacketList len=%d with a nil entry", n)}}); err != nil {
+				return err
+			}
 		}
 	}
 	return nil
@@ -622,6 +711,32 @@ func drivePrimSweep(c *DriverCtx) error {
 		{"WriteStringList", "ReadStringList", func(n int) map[string]any {
 			return map[string]any{"pw2": 1, "count": n, "elem": one(0x45), "vals": []any{}}
 		}},
+		{"WriteFixedStringList", "ReadFixedStringList", func(n int) map[string]any {
+			return map[string]any{"n": 8, "count": n, "elem": one(0x50, 0x51), "vals": []any{}}
+		}},
+		{"WriteFixedStringListWithPadding", "ReadFixedStringListTrimPadding", func(n int) map[string]any {
+			return map[string]any{"n": 16, "pad": 0x20, "left": false, "count": n, "elem": one(0x52, 0x53, 0x54), "vals": []any{}}
+		}},
+	}
+	// counts at which block-wise code has its fenceposts, beyond the dense range: powers of two
+	// and round decimal numbers (thorough: with their neighbours; 2^14 and more for one-byte elements only)
+	extra, extraBig := []int{}, []int{}
+	if c.N <= 1 {
+		extra = []int{1536, 2000, 2048, 4096}
+	} else {
+		for j := 13; j <= 16; j++ {
+			for _, d := range []int{-1, 0, 1} {
+				if v := 1<<j + d; v <= 65535 {
+					if v <= 8193 {
+						extra = append(extra, v)
+					} else {
+						extraBig = append(extraBig, v)
+					}
+				}
+			}
+		}
+		extra = append(extra, 5000, 6000, 6144, 7000, 8000)
+		extraBig = append(extraBig, 10000, 12288, 20000, 30000, 50000, 60000)
 	}
 	for fi, f := range fams {
 		for _, cfg := range []struct {
@@ -632,18 +747,31 @@ func drivePrimSweep(c *DriverCtx) error {
 				continue // quick tier: half of the (family, prefix, order) combinations, alternating
 			}
 			ops := []Op{}
+			counts := []int{}
 			for n := 0; n <= max; n++ {
-				if fi >= 3 && fi != 5 && n > 1100 && n%7 != 0 && c.N > 1 { // wide elements: beyond 1100 every 7th length
+				if fi >= 3 && fi != 5 && n > 1100 && n%7 != 0 && n%256 != 0 && n%1000 != 0 && c.N > 1 { // wide elements: beyond 1100 every 7th length and the round ones
 					continue
 				}
+				counts = append(counts, n)
+			}
+			counts = append(counts, extra...)
+			if fi == 1 || fi == 5 {
+				counts = append(counts, extraBig...)
+			}
+			for _, n := range counts {
 				a := f.args(n)
 				a["pw"], a["le"] = cfg.pw, cfg.le
 				b := fmt.Sprintf("b%d", n%50)
+				scalar := map[string]any{"v": []int{1, 2, 3, 4, 5, 6, 7, 8}, "ek": "u64", "le": cfg.le}
 				ops = append(ops, Op{Op: "reset", B: b}, Op{Op: "prim", B: b, Fn: f.wfn, Args: a, Tag: "sweep"},
 					Op{Op: "cut", B: b + "c", From: b, K: -1 - n%4, Tag: "all-but-the-last-bytes"}, Op{Op: "prim", B: b + "c", Fn: f.rfn, Args: a, Tag: "truncated"},
+					// the same followed by a further field, cut inside that field: the two reads together must not succeed
+					Op{Op: "reset", B: b + "d"}, Op{Op: "prim", B: b + "d", Fn: f.wfn, Args: a}, Op{Op: "prim", B: b + "d", Fn: "WriteBasicType", Args: scalar},
+					Op{Op: "cut", B: b + "e", From: b + "d", K: -1 - n%4}, Op{Op: "prim", B: b + "e", Fn: f.rfn, Args: a, Tag: "list-then-field"},
+					Op{Op: "prim", B: b + "e", Fn: "ReadBasicType", Args: scalar, Tag: "field-after-list-truncated"},
 					Op{Op: "write", B: b, Bytes: []int{0xEE}},
 					Op{Op: "prim", B: b, Fn: f.rfn, Args: a, Tag: "read-back"}, Op{Op: "peek", B: b})
-				if len(ops) >= 250 {
+				if len(ops) >= 250 || n > 1100 {
 					if err := c.Run(ops); err != nil {
 						return err
 					}
